@@ -287,6 +287,10 @@ class Impl:
         h = EXT_LINE_OPS.get(op)
         if h is not None:
             return h(self, mid, a)
+        if op == 'mcopy':
+            import copy as _copymod
+            self.mgrs[int(a[0])] = _copymod.copy(self.mgrs[mid])
+            return '-'
         if op == 'copy':
             u, dst = int(a[0]), int(a[1])
             r = _bdd.copy_bdd(u, self.mgrs[mid], self.mgrs[dst])
